@@ -80,6 +80,7 @@ func run(sum *lib.Summary) {
 		"parse(print(parse p)) must equal that of parse p, print(parse p) must parse, and printing must be a fixed point. " +
 		"non-trivial = accepted program whose printed text differs from the source; distinct = distinct source text"
 	distinct := map[string]bool{}
+	nFail := 0
 	handle := func(src, label string) {
 		sum.Evaluations++
 		r := roundTrip(src)
@@ -93,6 +94,12 @@ func run(sum *lib.Summary) {
 			sum.DistinctNontrivial++
 		}
 		if r.key != "" {
+			nFail++
+			if nFail > 30 {
+				// enough failing programs were minimised and reported; count the rest
+				sum.Count("further failing programs (not minimised)")
+				return
+			}
 			msrc, mr := minimize(src)
 			sh := shape(msrc)
 			key := "roundtrip:" + mr.key + ":" + sh
